@@ -271,7 +271,21 @@ func (c19) Gen(seed uint64, tier string) *Scenario {
 	ps.Statements = m.Stmts
 	ps.Flags = m.Flags
 	// fault plan
-	switch r.Intn(11) {
+	switch r.Intn(12) {
+	case 11:
+		// a program that knows nothing of csvq's lock files keeps writing to the table while csvq works
+		// (a log that grows, a file whose modification time moves): csvq ends with whatever it read
+		m.Fault = "none"
+		if m.Source == "file" {
+			m.Fault = "mutate"
+			mu := &MutateSpec{File: m.Table, Mode: "touch", Every: r.Pick(1, 1, 2, 3)}
+			if r.Bool(0.4) {
+				mu.Mode, mu.Every, mu.Max = "append", r.Pick(2, 3, 5), r.Pick(1, 3, 40)
+				mu.Line = map[string]string{"csv": "m1,m2,m3\n", "tsv": "m1\tm2\tm3\n", "ltsv": "c1:m1\tc2:m2\tc3:m3\n", "fixed": "m1   m2   m3\n",
+					"json": "\n", "jsonl": "{\"c1\":\"m1\",\"c2\":\"m2\",\"c3\":\"m3\"}\n"}[m.Format]
+			}
+			sc.Mutate = mu
+		}
 	case 10:
 		// the device behind standard output fills up at the n-th write
 		m.Fault = "stdout"
